@@ -75,6 +75,9 @@ add("big", I("9223372036854775808"), [one("9223372036854775808")], "full")
 add("float", F("3.14"), [one("3.14")], "core")
 add("exp", F("1000.0"), [one("1e3")], "full")
 add("negexp", F("-2.5e-07"), [one("-2.5e-07")], "full")
+add("posexp", F("2.5e-07"), [one("2.5e-07"), one("0.00000025")], "core")
+add("bigexp", F("1.5e+16"), [one("1.5e+16"), one("15000000000000000.0")], "full")
+add("intexp", F("1e+22"), [one("1e+22"), one("1e22")], "full")
 add("t", B("true"), [one("true")], "core")
 add("f", B("false"), [one("false")], "full")
 add("null", N, [one("null")], "core")
